@@ -1558,26 +1558,43 @@ pub fn one_case(mode: &str, subseed: u64) -> G {
     g
 }
 
-pub fn emit(sink: &mut CaseSink, mode: &str, subseed: u64) {
+/// what a case leaves behind, as plain data (the probe itself stays on the thread that ran it)
+pub struct CaseData {
+    pub stats: Vec<String>,
+    pub ops: Vec<String>,
+    pub obs: Vec<String>,
+    pub term: String,
+}
+
+pub fn case_data(mode: &str, subseed: u64) -> CaseData {
     let g = one_case(mode, subseed);
     let w = &g.w;
+    CaseData { stats: w.stats.clone(), ops: w.ops.clone(), obs: w.obs.clone(), term: w.case_term() }
+}
+
+pub fn emit_data(sink: &mut CaseSink, mode: &str, subseed: u64, d: &CaseData) {
     sink.count(&format!("mode:{}", mode));
-    for st in &w.stats {
+    for st in &d.stats {
         sink.count(st);
     }
-    sink.count(&format!("ops:{}", match w.ops.len() { 0..=5 => "<=5", 6..=15 => "6-15", 16..=40 => "16-40", _ => ">40" }));
+    sink.count(&format!("ops:{}", match d.ops.len() { 0..=5 => "<=5", 6..=15 => "6-15", 16..=40 => "16-40", _ => ">40" }));
     let mut kinds = std::collections::BTreeSet::new();
-    for o in &w.ops {
+    for o in &d.ops {
         let k: String = o.split(|c: char| c == ' ' || c == '(').filter(|x| !x.is_empty()).take(2).collect::<Vec<_>>().join("_");
         kinds.insert(k);
     }
     for k in kinds {
         sink.count(&format!("op:{}", k));
     }
-    let recvd = w.obs.iter().filter(|o| o.starts_with("(BRecv (RItem")).count();
+    let recvd = d.obs.iter().filter(|o| o.starts_with("(BRecv (RItem")).count();
     sink.count_n("items_received", recvd as u64);
-    let nontrivial = w.ops.len() >= 4 && recvd >= 1;
-    sink.push_line(w.case_term(), nontrivial, format!("{} {}", mode, subseed));
+    let nontrivial = d.ops.len() >= 4 && recvd >= 1;
+    sink.push_line(d.term.clone(), nontrivial, format!("{} {}", mode, subseed));
+}
+
+pub fn emit(sink: &mut CaseSink, mode: &str, subseed: u64) {
+    let d = case_data(mode, subseed);
+    emit_data(sink, mode, subseed, &d);
 }
 
 pub fn run(a: &Args, prop: &str, check_mod: &str, modes: &[&str]) {
@@ -1609,10 +1626,19 @@ pub fn run(a: &Args, prop: &str, check_mod: &str, modes: &[&str]) {
         sink.finish("");
         return;
     }
-    for i in 0..a.n {
-        let mode = modes[(i % modes.len() as u64) as usize];
-        let sub = rng.next();
-        emit(&mut sink, mode, sub);
+    // the cases are independent (each has its own probe): a few at a time, emitted in order
+    let todo: Vec<(String, u64)> = (0..a.n).map(|i| (modes[(i % modes.len() as u64) as usize].to_string(), rng.next())).collect();
+    for chunk in todo.chunks(8) {
+        let hs: Vec<_> = chunk
+            .iter()
+            .cloned()
+            .map(|(m, sd)| std::thread::Builder::new().stack_size(64 << 20).spawn(move || { let d = case_data(&m, sd); (m, sd, d) }).unwrap())
+            .collect();
+        for h in hs {
+            if let Ok((m, sd, d)) = h.join() {
+                emit_data(&mut sink, &m, sd, &d);
+            }
+        }
     }
     sink.finish("");
 }
